@@ -20,6 +20,7 @@ func init() {
 			"R08.2 also: the matching forms of NegotiateContentType (exact = equality with the normalised offer, type/* = prefix keeping the slash); R08.5 also: with the failed-basic-auth marker present the challenge is set for every error class. " +
 			"R08.2 also: once set from the negotiated format, Content-Type is never deleted or replaced by Respond. " +
 			"R08.1 also: a producer table built for the negotiated format is built from the list handed to the negotiation. " +
+			"R08.1 also: each entry of the per-route producer table is producers[that media type]; R08.2 also: memo contexts are rooted in the request the accessor was given, and the error responder adds its headers (never installs them over the response's). " +
 			"NOT decided: the bytes a producer writes; the negotiated value itself (C07).",
 		Run: runC08,
 	})
